@@ -59,6 +59,9 @@ def gen_cases(tier, seed):
         lo = 3 + (k % 4) * 100
         counts = list(range(lo, lo + 100)) if tier == "quick" else list(range(3, 1000)) if k % 10 == 0 else sorted(set(int(v) for v in sub.integers(3, 2000, 150)))
         cases.append({"spec": spec, "alpha": float(10 ** sub.uniform(-6, -1)), "n_points": counts[0], "n_points_sweep": counts, "method": "iform" if k % 3 else "isorm", "cost": 3})
+    for k, cse in enumerate(cases):
+        if k % 3 == 0:
+            cse["history"] = int(rng.integers(1, 1 << 31))
     # the shipped test model and the OMAE V-Hs structure as fixed members
     for sp_ in (S.spec_seastate(), S.spec_omae_vhs()):
         for method in ("iform", "isorm"):
@@ -278,6 +281,17 @@ def run_case(case, ctx):
         ctx.cls("n_points-sweep", f"{case['n_points_sweep'][0]}..{case['n_points_sweep'][-1]}")
         ctx.count("c01.sweep-contours", len(case["n_points_sweep"]))
     con = cls(model, case["alpha"], n_points=case["n_points"])
+    if case.get("history") and any(d.get("cond") is not None for d in spec["dims"]):
+        # call history: the SAME model object gets other dependence parameters (what a re-fit does), then contours
+        # again (same and another alpha, both methods): they must be contours of the CURRENT parameters
+        first = np.asarray(con.coordinates, float).copy()
+        nchg = S.change_in_place(model, spec, np.random.default_rng(case["history"]))
+        if nchg:
+            ctx.cls("history", "dependence-parameters-changed-in-place")
+            ctx.count("c01.history-contours")
+            for cls2, a2 in ((cls, case["alpha"]), (cls, min(0.4, case["alpha"] * 7)), (ISORMContour if cls is IFORMContour else IFORMContour, case["alpha"])):
+                con2 = cls2(model, a2, n_points=case["n_points"])  # judged by the monitor against the updated spec
+            ctx.notes["history_changed"] = nchg
     ctx.sig = f"{S.spec_signature(spec)}|{case['alpha']:.6g}|{case['n_points']}|{case['method']}"
     ctx.nontrivial = case["alpha"] < 0.5 and any(d.get("cond") is not None for d in spec["dims"])
     ctx.sample = {"signature": S.spec_signature(spec), "alpha": case["alpha"], "n_points": case["n_points"], "method": case["method"], "first_point": np.asarray(con.coordinates)[0].tolist()}
